@@ -26,35 +26,43 @@ open Librfn.Model.RingConc
 def wrapBV (len : BitVec 64) (i : BitVec 32) : BitVec 32 :=
   if len.ule ((i + 1#32).setWidth 64) then ((i + 1#32).setWidth 64 - len).setWidth 32 else i + 1#32
 
-/-! ### layer 1 -/
+/-- the descriptors the property quantifies over (and `ring_inv` maintains): 2 <= length <= 2^32, both indices inside the ring -/
+def wfBV (len : BitVec 64) (r w : BitVec 32) : Bool :=
+  BitVec.ule 2#64 len && BitVec.ule len 0x100000000#64 && BitVec.ult (r.setWidth 64) len && BitVec.ult (w.setWidth 64) len
 
-theorem put_generated (bufp len : BitVec 64) (r w : BitVec 32) (d : BitVec 8) (mem : Mem) :
+/-! ### layer 1 (every well-formed descriptor; a rewrite that differs only on descriptors no history can produce re-proves) -/
+
+theorem put_generated (bufp len : BitVec 64) (r w : BitVec 32) (d : BitVec 8) (mem : Mem) (hwf : wfBV len r w = true) :
     (ringbuf_put bufp len r w d mem).ub = false ∧ (ringbuf_put bufp len r w d mem).exh = false ∧
     (ringbuf_put bufp len r w d mem).rb_bufp = bufp ∧ (ringbuf_put bufp len r w d mem).rb_buf_len = len ∧
     (ringbuf_put bufp len r w d mem).rb_readi = r ∧
     (ringbuf_put bufp len r w d mem).ret = (if wrapBV len w = r then 0#8 else 1#8) ∧
     (ringbuf_put bufp len r w d mem).rb_writei = (if wrapBV len w = r then w else wrapBV len w) := by
+  unfold wfBV at hwf
   unfold ringbuf_put wrapBV
   bv_decide (config := { timeout := 300 })
 
-theorem put_generated_mem (bufp len : BitVec 64) (r w : BitVec 32) (d : BitVec 8) (mem : Mem) (a : BitVec 64) :
+theorem put_generated_mem (bufp len : BitVec 64) (r w : BitVec 32) (d : BitVec 8) (mem : Mem) (a : BitVec 64) (hwf : wfBV len r w = true) :
     (ringbuf_put bufp len r w d mem).mem a =
       (if wrapBV len w = r then mem a else if a = bufp + w.setWidth 64 then d else mem a) := by
+  unfold wfBV at hwf
   unfold ringbuf_put wrapBV
   simp only [Mem.ite_app, Mem.store_app]
   bv_decide (config := { timeout := 300 })
 
-theorem get_generated (bufp len : BitVec 64) (r w : BitVec 32) (mem : Mem) :
+theorem get_generated (bufp len : BitVec 64) (r w : BitVec 32) (mem : Mem) (hwf : wfBV len r w = true) :
     (ringbuf_get bufp len r w mem).ub = false ∧ (ringbuf_get bufp len r w mem).exh = false ∧
     (ringbuf_get bufp len r w mem).rb_bufp = bufp ∧ (ringbuf_get bufp len r w mem).rb_buf_len = len ∧
     (ringbuf_get bufp len r w mem).rb_writei = w ∧
     (ringbuf_get bufp len r w mem).ret = (if r = w then 0xffffffff#32 else (mem (bufp + r.setWidth 64)).setWidth 32) ∧
     (ringbuf_get bufp len r w mem).rb_readi = (if r = w then r else wrapBV len r) := by
+  unfold wfBV at hwf
   unfold ringbuf_get wrapBV
   bv_decide (config := { timeout := 300 })
 
-theorem get_generated_mem (bufp len : BitVec 64) (r w : BitVec 32) (mem : Mem) (a : BitVec 64) :
+theorem get_generated_mem (bufp len : BitVec 64) (r w : BitVec 32) (mem : Mem) (a : BitVec 64) (hwf : wfBV len r w = true) :
     (ringbuf_get bufp len r w mem).mem a = mem a := by
+  unfold wfBV at hwf
   unfold ringbuf_get
   first
     | rfl
@@ -62,11 +70,12 @@ theorem get_generated_mem (bufp len : BitVec 64) (r w : BitVec 32) (mem : Mem) (
     | (simp only [Mem.ite_app, Mem.store_app]; bv_decide (config := { timeout := 300 }))
     | bv_decide (config := { timeout := 300 })
 
-theorem empty_generated (bufp len : BitVec 64) (r w : BitVec 32) :
+theorem empty_generated (bufp len : BitVec 64) (r w : BitVec 32) (hwf : wfBV len r w = true) :
     (ringbuf_empty bufp len r w).ub = false ∧ (ringbuf_empty bufp len r w).exh = false ∧
     (ringbuf_empty bufp len r w).rb_bufp = bufp ∧ (ringbuf_empty bufp len r w).rb_buf_len = len ∧
     (ringbuf_empty bufp len r w).rb_readi = r ∧ (ringbuf_empty bufp len r w).rb_writei = w ∧
     (ringbuf_empty bufp len r w).ret = (if r = w then 1#8 else 0#8) := by
+  unfold wfBV at hwf
   unfold ringbuf_empty
   bv_decide (config := { timeout := 300 })
 
@@ -96,6 +105,12 @@ theorem wrapBV_toNat (len i : Nat) (hl : len < 2 ^ 64) (hi : i < 2 ^ 32) :
   · simp only [h, decide_false, if_false, Bool.false_eq_true]
     simp only [BitVec.toNat_add, BitVec.toNat_ofNat]
     omega
+
+theorem wf_of_nat (len r w : Nat) (h2 : 2 ≤ len) (hl : len ≤ 2 ^ 32) (hr : r < len) (hw : w < len) :
+    wfBV (BitVec.ofNat 64 len) (BitVec.ofNat 32 r) (BitVec.ofNat 32 w) = true := by
+  unfold wfBV
+  simp only [Bool.and_eq_true, BitVec.ule, BitVec.ult, decide_eq_true_eq, BitVec.toNat_ofNat, BitVec.toNat_setWidth]
+  refine ⟨⟨⟨?_, ?_⟩, ?_⟩, ?_⟩ <;> omega
 
 /-- run a list of actions of the interleaving model, all of which must be enabled -/
 def runActs : St → List Act → Option St
@@ -138,15 +153,19 @@ theorem wrap_lt (len i : Nat) : wrap len i < 2 ^ 32 := by
 /-- **tie T, `ringbuf_put`**: the producer running one call alone from an idle state (the model's `put d`, then its
     `pstep`s) ends with the result, the published index and the storage the C function computes -/
 theorem put_tie (s : St) (d : UInt8) (bufp : BitVec 64) (mem : Mem)
-    (hp : s.p = .idle) (hr : s.readi < 2 ^ 32) (hw : s.writei < 2 ^ 32) (hl : s.len < 2 ^ 64) (habs : Abs mem bufp s.buf) :
+    (hp : s.p = .idle) (h2 : 2 ≤ s.len) (hl32 : s.len ≤ 2 ^ 32) (hrl : s.readi < s.len) (hwl : s.writei < s.len) (habs : Abs mem bufp s.buf) :
     let g := ringbuf_put bufp (BitVec.ofNat 64 s.len) (BitVec.ofNat 32 s.readi) (BitVec.ofNat 32 s.writei) d.toBitVec mem
     g.ub = false ∧ g.exh = false ∧
     ∃ s', runActs s (if wrap s.len s.writei = s.readi then [.put d, .pstep] else [.put d, .pstep, .pstep, .pstep]) = some s' ∧
       s'.p = .idle ∧ s'.plast = some (g.ret != 0#8) ∧ s'.writei = g.rb_writei.toNat ∧ s'.readi = g.rb_readi.toNat ∧
       s'.len = s.len ∧ Abs g.mem bufp s'.buf := by
+  have hr : s.readi < 2 ^ 32 := by omega
+  have hw : s.writei < 2 ^ 32 := by omega
+  have hl : s.len < 2 ^ 64 := by omega
+  have hwf := wf_of_nat s.len s.readi s.writei h2 hl32 hrl hwl
   obtain ⟨h1, h2, _, _, h5, h6, h7⟩ :=
-    put_generated bufp (BitVec.ofNat 64 s.len) (BitVec.ofNat 32 s.readi) (BitVec.ofNat 32 s.writei) d.toBitVec mem
-  have hm := put_generated_mem bufp (BitVec.ofNat 64 s.len) (BitVec.ofNat 32 s.readi) (BitVec.ofNat 32 s.writei) d.toBitVec mem
+    put_generated bufp (BitVec.ofNat 64 s.len) (BitVec.ofNat 32 s.readi) (BitVec.ofNat 32 s.writei) d.toBitVec mem hwf
+  have hm := fun a => put_generated_mem bufp (BitVec.ofNat 64 s.len) (BitVec.ofNat 32 s.readi) (BitVec.ofNat 32 s.writei) d.toBitVec mem a hwf
   have hwr := wrapBV_toNat s.len s.writei hl hw
   have hwl := wrap_lt s.len s.writei
   have hc : (wrapBV (BitVec.ofNat 64 s.len) (BitVec.ofNat 32 s.writei) = BitVec.ofNat 32 s.readi) ↔ wrap s.len s.writei = s.readi := by
@@ -191,15 +210,19 @@ theorem put_tie (s : St) (d : UInt8) (bufp : BitVec 64) (mem : Mem)
 
 /-- **tie T, `ringbuf_get`**: the consumer running one call alone from an idle state -/
 theorem get_tie (s : St) (bufp : BitVec 64) (mem : Mem)
-    (hc0 : s.c = .idle) (hr : s.readi < 2 ^ 32) (hw : s.writei < 2 ^ 32) (hl : s.len < 2 ^ 64) (habs : Abs mem bufp s.buf) :
+    (hc0 : s.c = .idle) (h2 : 2 ≤ s.len) (hl32 : s.len ≤ 2 ^ 32) (hrl : s.readi < s.len) (hwl : s.writei < s.len) (habs : Abs mem bufp s.buf) :
     let g := ringbuf_get bufp (BitVec.ofNat 64 s.len) (BitVec.ofNat 32 s.readi) (BitVec.ofNat 32 s.writei) mem
     g.ub = false ∧ g.exh = false ∧
     ∃ s', runActs s (if s.readi = s.writei then [.get, .cstep] else [.get, .cstep, .cstep, .cstep]) = some s' ∧
       s'.c = .idle ∧ s'.clast = some g.ret.toInt ∧ s'.readi = g.rb_readi.toNat ∧ s'.writei = g.rb_writei.toNat ∧
       s'.len = s.len ∧ Abs g.mem bufp s'.buf := by
+  have hr : s.readi < 2 ^ 32 := by omega
+  have hw : s.writei < 2 ^ 32 := by omega
+  have hl : s.len < 2 ^ 64 := by omega
+  have hwf := wf_of_nat s.len s.readi s.writei h2 hl32 hrl hwl
   obtain ⟨h1, h2, _, _, h5, h6, h7⟩ :=
-    get_generated bufp (BitVec.ofNat 64 s.len) (BitVec.ofNat 32 s.readi) (BitVec.ofNat 32 s.writei) mem
-  have hm := get_generated_mem bufp (BitVec.ofNat 64 s.len) (BitVec.ofNat 32 s.readi) (BitVec.ofNat 32 s.writei) mem
+    get_generated bufp (BitVec.ofNat 64 s.len) (BitVec.ofNat 32 s.readi) (BitVec.ofNat 32 s.writei) mem hwf
+  have hm := fun a => get_generated_mem bufp (BitVec.ofNat 64 s.len) (BitVec.ofNat 32 s.readi) (BitVec.ofNat 32 s.writei) mem a hwf
   have hwr := wrapBV_toNat s.len s.readi hl hr
   have hc := ofNat32_inj s.readi s.writei hr hw
   refine ⟨h1, h2, ?_⟩
@@ -230,12 +253,16 @@ theorem get_tie (s : St) (bufp : BitVec 64) (mem : Mem)
     · intro i hi; rw [hm]; exact habs i hi
 
 /-- **tie T, `ringbuf_empty`** -/
-theorem empty_tie (s : St) (bufp : BitVec 64) (hc0 : s.c = .idle) (hr : s.readi < 2 ^ 32) (hw : s.writei < 2 ^ 32) :
+theorem empty_tie (s : St) (bufp : BitVec 64) (hc0 : s.c = .idle)
+    (h2 : 2 ≤ s.len) (hl32 : s.len ≤ 2 ^ 32) (hrl : s.readi < s.len) (hwl : s.writei < s.len) :
     let g := ringbuf_empty bufp (BitVec.ofNat 64 s.len) (BitVec.ofNat 32 s.readi) (BitVec.ofNat 32 s.writei)
     g.ub = false ∧ g.exh = false ∧
     ∃ s', runActs s [.empty, .cstep] = some s' ∧ s'.c = .idle ∧ s'.clast = some g.ret.toInt ∧
       s'.readi = s.readi ∧ s'.writei = s.writei ∧ s'.buf = s.buf := by
+  have hr : s.readi < 2 ^ 32 := by omega
+  have hw : s.writei < 2 ^ 32 := by omega
   obtain ⟨h1, h2, _, _, _, _, h7⟩ := empty_generated bufp (BitVec.ofNat 64 s.len) (BitVec.ofNat 32 s.readi) (BitVec.ofNat 32 s.writei)
+    (wf_of_nat s.len s.readi s.writei h2 hl32 hrl hwl)
   have hc := ofNat32_inj s.readi s.writei hr hw
   refine ⟨h1, h2, { s with c := .idle, clast := some (if s.readi = s.writei then 1 else 0) }, ?_, rfl, ?_, rfl, rfl, rfl⟩
   · simp only [runActs, stepAct, hc0]
